@@ -18,7 +18,7 @@ from .. import AnalysisError, anf
 from ..anf import Rat, sym
 from ..guards import G, TRUE, FALSE, g_and, g_not, g_or, g_equiv, g_implies, g_sat, compare, canon_sign, OPS, count_true
 from ..gvn import Frame, Obj, PW, Vec, cases_of, veq, mk_pw, Unsupported
-from .common import RuleCtx, _short, split_at_loop, stored_names, range_args, sign_set_name, returned_names
+from .common import section, RuleCtx, _short, split_at_loop, stored_names, range_args, sign_set_name, returned_names
 
 C = Rat.const
 LINKAGES = ["single_linkage", "complete_linkage", "centroid_linkage", "average_linkage"]
@@ -36,7 +36,7 @@ def run(ctx):
     res.rule("L2", "the label is incremented exactly when (linkage distance - t) has sign in {0,+}, i.e. distance >= t")
     res.rule("L3", "linkage distance and carried state equal the stated definition (single: gap; complete: first member; centroid: running mean; average: mean distance to members), normalised by x_last - x_first")
     for name in LINKAGES:
-        _one(rc, name)
+        section(rc, _one, name)
     res.extra_coverage["checker_cmd"] = "/venv/bin/python -m kverif check C11"
     res.assumptions += ["real-number reading of the centroid recurrence", "x strictly increasing (range R > 0)"]
     res.not_decided += ["floating-point rounding of the centroid recurrence",
